@@ -10,7 +10,8 @@
 (*  - the setter calls of one parameter set are one model step (they are separate   *)
 (*    API calls and separate events in the replay);                                 *)
 (*  - Free = FALSE (quick tier): set 1 goes through the typed setters, set 2        *)
-(*    through read_json; solve_mtx(_f) gets the *other* matrix; report directly     *)
+(*    through read_json; solve_mtx(_f) gets the *other* matrix (solve_mtx_upd(_f):  *)
+(*    the creation arrays updated in place, same pointers); report directly         *)
 (*    follows the creation of its object.  Free = TRUE lifts these three.           *)
 EXTENDS CApi, Json
 
@@ -63,7 +64,9 @@ JustCreated(o) == hist # <<>> /\ hist[Len(hist)].f \in CreateFns(o)
 OUse     == \E o \in OSlots : \E f \in UseFns(o) :
                /\ ObjUse(o)
                /\ (f \in {"precond_report", "solver_report"} /\ ~Free) => JustCreated(o)
-               /\ \E m \in (IF f \in MtxFns THEN (IF Free THEN Matrices ELSE Matrices \ {ob[o].m}) ELSE {0}) :
+               /\ UpdEnabled(o, f)
+               /\ \E m \in (IF f \in MtxFns THEN (IF Free THEN Matrices ELSE Matrices \ {ob[o].m})
+                           ELSE IF f \in UpdFns THEN {ob[o].m} ELSE {0}) :
                      Log1(Call(f, o, "", m, 0))
 ODestroy == \E o \in OSlots : ObjDestroy(o) /\ Log1(Call(DestroyFn(o), o, "", 0, 0))
 
